@@ -211,6 +211,29 @@ def check(prog, run):
                                "old and new members are paired by `%s` instead of their name: a renamed member with the same %s is "
                                "reported as unchanged, and equal names with different %s as removed and added" % (ast.unparse(k), k.attr, k.attr))
 
+    # ---- P7 independent aspects are diffed independently
+    r7 = run.rule("P7", "a call to a sub-differ (`_diff_*`) is never placed under an if/else that compares another aspect of the old and "
+                        "new element (`old_x != new_x`): each aspect (locations, arguments, fields, ...) is diffed whether or not "
+                        "another aspect changed, otherwise combined edits lose all but one of their reports", 5)
+    dmod2 = prog.module(D)
+    for f in [x for x in prog.all_funcs() if x.module is dmod2]:
+        for n in own_nodes(f.node):
+            if isinstance(n, ast.Call) and isinstance(n.func, ast.Name) and n.func.id.startswith("_diff_"):
+                r7.instance("%s calls %s" % (f.qualname, n.func.id))
+                cur = n
+                while getattr(cur, "_parent", None) is not None and cur is not f.node:
+                    par = cur._parent
+                    if isinstance(par, ast.If) and cur is not par.test:
+                        for c in ast.walk(par.test):
+                            if isinstance(c, ast.Compare) and len(c.ops) == 1 and isinstance(c.ops[0], (ast.Eq, ast.NotEq)):
+                                sides = ast.unparse(c.left) + " " + ast.unparse(c.comparators[0])
+                                if "old" in sides and "new" in sides:
+                                    run.report(r7, "%s:%s:conditional-subdiff(%s)" % (D, f.qualname, n.func.id), f.where(n),
+                                               "%s is called only when `%s` %s: an edit of that aspect made together with an edit of the "
+                                               "compared one is not reported" % (n.func.id, " ".join(ast.unparse(par.test).split()),
+                                                                               "holds" if any(cur is b for b in par.body) else "does not hold"))
+                    cur = par
+
     # ---- P5 sibling default comparison
     r = run.rule("P5", "the three argument / input-field differs compare defaults with the same condition (presence changed, or "
                        "both present and values differ)", 3)
